@@ -124,11 +124,15 @@ func (p *Prosumer) call(callback Callback, message Message) {
 				p.onError(err)
 				return
 			}
+			arg := reflect.Zero(t.In(0)) // a nil interface has no reflect.Value of its own
+			if data != nil {
+				arg = reflect.ValueOf(data)
+			}
 			switch n {
 			case 1:
-				v.Call([]reflect.Value{reflect.ValueOf(data)})
+				v.Call([]reflect.Value{arg})
 			case 2:
-				v.Call([]reflect.Value{reflect.ValueOf(data), reflect.ValueOf(message.From)})
+				v.Call([]reflect.Value{arg, reflect.ValueOf(message.From)})
 			default:
 				panic("invalid callback: " + t.String())
 			}
